@@ -828,7 +828,7 @@ class DicomStack(object):
         files_per_vol = len(self._files_info) // n_vols
 
         #Pull the DICOM Patient Space affine from the first input
-        aff = self._files_info[0][0].nii_img.affine
+        aff = self._files_info[0][0].nii_img.affine.copy()
 
         #If there is more than one file per volume, we need to fix slice scaling
         if files_per_vol > 1:
